@@ -83,6 +83,9 @@ func stubMultipartNextPart(mr *multipart.Reader) (*multipart.Part, error) {
 
 // vPartBytes: what io.ReadAll yields for a part (a handle for the JSON document).
 func vPartBytes(p *multipart.Part) []byte {
+	if p == nil {
+		panic("runtime error: invalid memory address or nil pointer dereference (Read on a nil *multipart.Part)")
+	}
 	vJSONMu.Lock()
 	defer vJSONMu.Unlock()
 	d := vMpParts[p]
